@@ -225,7 +225,18 @@ func (z *zipkinNDDecoderV2) Decode() error {
 	scanner := bufio.NewScanner(z.ctx.bodyReader)
 	scanner.Split(bufio.ScanLines)
 	for scanner.Scan() {
-		err := z.decodeSpan(scanner.Bytes())
+		z.traceId = nil
+		z.spanId = nil
+		z.timestampNs = 0
+		z.durationNs = 0
+		z.parentId = ""
+		z.name = ""
+		z.serviceName = ""
+		z.key = z.key[:0]
+		z.val = z.val[:0]
+		line := scanner.Bytes()
+		z.payload = append([]byte{}, line...)
+		err := z.decodeSpan(line)
 		if err != nil {
 			return custom_errors.NewUnmarshalError(err)
 		}
